@@ -160,6 +160,20 @@ impl Iterator for FaultyIter {
         self.yielded += 1;
         self.items.next()
     }
+
+    /// Honest size hints of three shapes, chosen by the number of items: unknown `(0, None)`, exact, or a
+    /// lower bound only. (An iterator that is going to panic stays with "unknown".)
+    fn size_hint(&self) -> (usize, Option<usize>) {
+        let left = self.items.len();
+        if self.panic_after.is_some() {
+            return (0, None);
+        }
+        match (left + self.yielded) % 3 {
+            0 => (0, None),
+            1 => (left, Some(left)),
+            _ => (left / 2, None),
+        }
+    }
 }
 
 struct FrameGuard<'i, 's>(&'i mut Interp<'s>);
